@@ -310,6 +310,8 @@ class G:
 
     def add_default(self, c, base):
         cls = self.pick(["static", "static", "dyn"]) if self.STATIC_DEFAULTS.get(base) else "dyn"
+        if base == "image" and not self.P.get("image_dynamic_default"):
+            cls = "static"  # dynamic defaults on image questions: examined by C10 only
         if cls == "static":
             c["default"] = self.pick(self.STATIC_DEFAULTS[base])
         else:
